@@ -1,4 +1,5 @@
 import Tx3Proofs.C03
+import Tx3Proofs.C03Independent
 #print axioms Tx3.C03_single_sound
 #print axioms Tx3.C03_single_complete
 #print axioms Tx3.pickManyLoop_inv
@@ -8,3 +9,5 @@ import Tx3Proofs.C03
 #print axioms Tx3.C03_many_complete
 #print axioms Tx3.C03_select_sound
 #print axioms Tx3.C03_take_complete
+#print axioms Tx3.C03_independent_block
+#print axioms Tx3.C03_two_independent_blocks
